@@ -30,6 +30,8 @@ impl Drop for AutoDespawnSignalInner
 /// Drains [`AutoDespawner`] and recursively despawns entities that were auto-despawned.
 pub fn garbage_collect_entities(world: &mut World)
 {
+    #[cfg(feature = "verif")]
+    crate::verif::emit(crate::verif::VerifEvent::GarbageCollect);
     while let Some(entity) = world.resource::<AutoDespawner>().try_recv()
     {
         world.get_entity_mut(entity).ok().map(|e| e.despawn_recursive());
